@@ -46,6 +46,10 @@ ASSUMPTIONS = [
     "'the registered device listener receives at most one notification over the lifetime of one device object' is counted over "
     "ALL listener objects the application registers during that lifetime (atv.listener may be assigned again, to the same object, a new "
     "one, or None, at any point)",
+    "'returns the same pending tasks' is judged on the contents of the returned set at every close(), with the event loop "
+    "given the chance to complete the tasks in between, and the set must be awaitable by iterating it",
+    "a protocol's own push updater may raise from start() (push_updater.start() then fails half-way); a protocol updater raising "
+    "from stop() would make close() itself fail and is outside the histories considered",
     "'after any protocol reports' includes the notification callback itself: a public-API call made from inside the "
     "DeviceListener callback must already raise BlockedStateError, and the device must be blocked whether or not the callback raises",
     "an exception raised by the user's own handler may propagate to whoever invoked it (the reporting protocol, or the "
@@ -152,10 +156,15 @@ def make_classes():
             return self._active
 
         def start(self, initial_delay=0):
+            if self.fault_env is not None and self.fault_env.fault_start == self.index:
+                raise RuntimeError("protocol push updater failed to start")
             self._active = True
 
         def stop(self):
             self._active = False
+
+        fault_env = None
+        index = -1
 
     return Recorder, PushRecorder, DummyRC, DummyFeatures, DummyPush
 
@@ -193,6 +202,12 @@ class Env:
         self.excs = shared["excs"]
         self.rc_calls = 0
         self.final = (0, None)
+        self.fault_start = None
+        self.snapshots = []        # contents of the set at every top-level close() return
+        self.iter_checked = False
+        self.gates = [asyncio.Event() for _ in protos]
+        self.connected0 = len(protos)
+        self.connect_task = None
         self.extra_refs = []
         self.device_collected = None
 
@@ -203,11 +218,13 @@ class Env:
         for i, (tasks, kinds) in enumerate(protos):
             proto = getattr(Protocol, PROTOCOL_ORDER[i])
             pusher = DummyPush(ProtocolStateDispatcher(proto, self.dispatcher))
+            pusher.fault_env, pusher.index = env, i
             self.pushers.append(pusher)
             self.reporter_objs.append(self._make_reporter(reporters[i]))
 
             def make(i, tasks, kinds):
                 async def connect():
+                    await env.gates[i].wait()      # suspension point: anything can happen meanwhile
                     return True
 
                 def close():
@@ -255,8 +272,57 @@ class Env:
                 atv.listener.connection_lost(exc)
         return direct
 
-    async def setup(self):
-        await self.atv.connect()
+    async def settle(self, want):
+        """let FacadeAppleTV.connect() run until `want` protocols are registered (or it is done)"""
+        for _ in range(12):
+            if self.connect_task.done() or len(self.atv._protocol_handlers) >= want:
+                break
+            await asyncio.sleep(0)
+        if self.connect_task.done() and self.connect_task.exception() is not None:
+            self.escaped.append("connect:" + type(self.connect_task.exception()).__name__)
+
+    async def connect_next(self):
+        if self.atv is None or self.connect_task.done():
+            return
+        nxt = next((g for g in self.gates if not g.is_set()), None)
+        if nxt is None:
+            return
+        nxt.set()
+        await self.settle(sum(1 for g in self.gates if g.is_set()))
+        if all(g.is_set() for g in self.gates):
+            for _ in range(6):
+                if self.connect_task.done():
+                    break
+                await asyncio.sleep(0)
+
+    async def finish_connect(self):
+        while self.atv is not None and not self.connect_task.done() and not all(g.is_set() for g in self.gates):
+            await self.connect_next()
+        if self.connect_task is not None and not self.connect_task.done():
+            try:
+                await asyncio.wait_for(self.connect_task, 1)
+            except Exception as ex:
+                self.escaped.append("connect:" + type(ex).__name__)
+
+    async def setup(self, connected0=None):
+        # FacadeAppleTV.connect() awaits the protocols' connect() one after the other; the first
+        # `connected0` complete at once, the others when the history says so (token `c`)
+        self.connected0 = len(self.gates) if connected0 is None else connected0
+        for g in self.gates[:self.connected0]:
+            g.set()
+        if all(g.is_set() for g in self.gates):
+            # nothing left to wait for: connect() runs through (same code path, no scheduling needed)
+            self.connect_task = asyncio.get_event_loop().create_future()
+            try:
+                await self.atv.connect()
+                self.connect_task.set_result(None)
+            except Exception as ex:
+                self.connect_task.set_result(None)
+                self.escaped.append("connect:" + type(ex).__name__)
+        else:
+            self.connect_task = asyncio.ensure_future(self.atv.connect())
+            await asyncio.sleep(0)
+            await self.settle(self.connected0)
         atv = self.atv
         # the objects a user may hold on to: index = shielded-object number of the table
         names = self.shared["table"]["objects"]
@@ -329,7 +395,7 @@ class Env:
         finally:
             self.current = prev
 
-    def do_close(self):
+    def do_close(self, top=False):
         """atv.close() -> 'set<idx>:<n>' | 'userRaised' | 'raised'"""
         try:
             ret = self.atv.close()
@@ -342,6 +408,11 @@ class Env:
             return "raised"
         self.premise = True
         self.returned.append(ret)
+        if top:
+            try:
+                self.snapshots.append(frozenset(ret))
+            except Exception:
+                self.snapshots.append(None)
         idx = next((j for j, s in enumerate(self.sets) if s is ret), None)
         if idx is None:
             self.sets.append(ret)
@@ -431,7 +502,36 @@ class Env:
                 return "exc"
             return "-"
         if tok == "u":
-            return self.do_close()
+            out = self.do_close(top=True)
+            if out.startswith("set") and not self.iter_checked:
+                # what an application does with the result: await the tasks, iterating the set
+                self.iter_checked = True
+                try:
+                    for task in self.returned[-1]:
+                        await task
+                except RuntimeError as ex:
+                    self.problems.append(("close-tasks:set-changed-while-awaiting",
+                                          "awaiting the tasks while iterating the set close() returned failed: %s" % ex))
+                except Exception:
+                    pass
+            await asyncio.sleep(0)      # let whatever close() scheduled run before the next step
+            await asyncio.sleep(0)
+            return out
+        if tok == "c":
+            await self.connect_next()
+            return "-"
+        if tok == "sF":
+            # push_updater.start() during which the updater of the protocol registered last raises
+            self.fault_start = max(0, len(self.atv._protocol_handlers) - 1) if self.atv is not None else 0
+            try:
+                self.held_pu.start()
+            except BlockedStateError:
+                return "blocked"
+            except Exception:
+                return "faulted"
+            finally:
+                self.fault_start = None
+            return "pass"
         if tok[0] == "a":
             return await self.call_member(int(tok[1:]))
         if tok in ("s", "t"):
@@ -513,7 +613,7 @@ async def run_case(shared, case):
     lmode, protos, reporters, events = case["listener"], case["protos"], case["reporters"], case["events"]
     env = Env(shared, lmode, [(t, list(k)) for t, k in protos], reporters)
     env.loop.set_exception_handler(lambda loop, context: env.loop_errors.append(type(context.get("exception")).__name__))
-    await env.setup()
+    await env.setup(case.get("connected0"))
     outs, problems = [], env.problems
     api_classes = []
     closes = []
@@ -538,6 +638,7 @@ async def run_case(shared, case):
                              "event %d: push_updater.%s() did not raise BlockedStateError after close/loss" % (pos, "start" if tok == "s" else "stop")))
         if tok[0] == "p" and was and out == "d1":
             problems.append(("push-after-close", "event %d: a push update reached the user's PushListener after close/loss" % pos))
+    await env.finish_connect()       # (generated histories complete connect() themselves: token `c`)
     # sweep: every public member of every object, when the premise holds
     bits = None
     if env.premise and case.get("sweep", True):
@@ -586,12 +687,15 @@ async def run_case(shared, case):
         contents = [frozenset(r) for r in env.returned]
     except Exception:
         contents = []
-    if any(c != contents[0] for c in contents[1:]):
-        problems.append(("close-again:different-tasks", "repeated close() returned different pending tasks: sizes %s" % [len(c) for c in contents]))
-    if closes:
-        first_log = closes[0][1]
-        if any(log != first_log for _, log, _ in closes[1:]):
-            problems.append(("close-again:protocol-reclosed", "a repeated close() closed protocols again: close log %s" % env.close_log))
+    # "returns the same pending tasks": what close() handed out earlier is still in what it hands
+    # out later — judged on the contents at each return, with the loop having run the tasks in
+    # between.  The set may have GROWN: a protocol that finished connecting after the device was
+    # closed is closed by the next close() and its tasks join the same set.  (Whether it is the
+    # same set object is compared with the model, not demanded here.)
+    snaps = [c for c in env.snapshots if c is not None]
+    if any(not (a <= b) for a, b in zip(snaps, snaps[1:])):
+        problems.append(("close-again:different-tasks", "a repeated close() no longer returned pending tasks that an earlier "
+                         "close() had returned (after they completed): sizes %s" % [len(c) for c in snaps]))
     if len(set(env.close_log)) != len(env.close_log):
         problems.append(("close-again:protocol-reclosed", "a protocol was closed more than once: close log %s" % env.close_log))
     # notifications
@@ -625,7 +729,21 @@ async def run_case(shared, case):
 def model_line(case):
     protos = ",".join("%d:%s" % (t, ".".join(k) if k else "-") for t, k in case["protos"])
     events = list(case["events"]) + (["x"] if case.get("drop") else [])
-    return "seq %s %s %s" % (case["listener"], protos, ",".join(events) or "-")
+    line = "seq %s %s %s" % (case["listener"], protos, ",".join(events) or "-")
+    return line + (" %d" % case["connected0"] if case.get("connected0") is not None else "")
+
+
+_SIZE = None
+
+
+def _mask_late(text):
+    """connect-phase histories: FacadeAppleTV.close() (as repaired by "fix: closing the facade again closes
+    protocols connected after the first close") closes late protocols on a later call; the Lean model's
+    close() does not include that yet, so the close log and the sizes of the set are not compared there"""
+    import re
+    text = re.sub(r"set(\d+):\d+", r"set\1:*", text)
+    text = re.sub(r" K=\S+", " K=*", text)
+    return re.sub(r" P=(\d+):\d+", r" P=\1:*", text)
 
 
 def canon_impl(obs):
@@ -687,7 +805,7 @@ def exhaustive_cases(shared, ctx):
         (3, [L5, L4, L4, L4], [], [[(1, ("c",)), (0, ()), (2, ("l0",))]], "a"),
         (3, [L4, 3, 3, 3], [top], [[(0, ()), (1, ("c",)), (1, ("c",))]], "a"),
         # the application assigns atv.listener again (None / same object / new object) at every position
-        (1, [L5, 3, 3, 3], ["L0", "L1", "L2"], [[(0, ("c",))]], "a"),
+        (1, [ctx.scale(4, 6), 3, 3, 3], ["L0", "L1", "L2"], [[(0, ("c",))]], "a"),
         (2, [L4, 3, 0, 0], [held, "L1", "L2"], [[(1, ("c",)), (0, ())]], "a"),
         (3, [L4, 0, 0, 0], ["L2", "L0"], [[(1, ("c",)), (0, ()), (2, ("l0",))]], "n"),
         # … and push_updater.listener
@@ -707,8 +825,31 @@ def exhaustive_cases(shared, ctx):
                             count += 1
                             yield {"listener": lmode, "protos": pcfg,
                                    "reporters": DEFAULT_REPORTERS[:n], "events": ["s"] + with_probes(seq, probes),
-                                   "probe": 3, "sweep": length <= 3 or count % 4 == 0,
-                                   "drop": length <= 2 or count % 8 == 0}
+                                   "probe": 3, "sweep": length <= 3 or count % 5 == 0,
+                                   "drop": length <= 2 or count % 10 == 0}
+    # events DURING FacadeAppleTV.connect(): only the first protocol is registered when the history
+    # starts, `c` lets the next one finish connecting; the history ends with the remaining ones
+    # completing, the sweep follows.  And push_updater.start() calls that fail half-way (`sF`),
+    # with no successful start() before.
+    L4c, L3c = ctx.scale(4, 5), ctx.scale(3, 4)
+    cplans = [
+        (2, 1, L4c, ["r0c", "r0l1", "r1c", "u", "c", held], [(1, ("c",)), (1, ())], "a", True),
+        (3, 1, L4c, ["r0l1", "r1c", "u", "c", top], [(1, ("c",)), (0, ()), (1, ())], "a", True),
+        (3, 2, L3c, ["r0c", "r2l3", "u", "c", "L2"], [(1, ("c",)), (1, ()), (0, ())], "n", True),
+        (2, 2, L4c, ["r0c", "r1l2", "u", "sF", "s", "t"], [(1, ()), (0, ("c",))], "a", False),
+        (2, 1, L3c, ["r0l1", "u", "sF", "c", "t"], [(1, ()), (1, ())], "a", False),
+    ]
+    for n, c0, maxlen, syms, protos, lmode, started in cplans:
+        pcfg = [[t, list(kinds)] for t, kinds in protos]
+        for length in range(0, maxlen + 1):
+            for seq in itertools.product(syms, repeat=length):
+                count += 1
+                body = with_probes(seq, probes)
+                tail = ["c"] * max(0, n - c0 - sum(1 for e in seq if e == "c")) + ["p0", held]
+                yield {"listener": lmode, "protos": pcfg, "reporters": DEFAULT_REPORTERS[:n], "connected0": c0,
+                       "events": (["s"] if started else []) + body + tail, "probe": 3, "off": 1 if started else 0,
+                       "upto": (1 if started else 0) + len(body), "sweep": length <= 3 or count % 2 == 0,
+                       "drop": count % 4 == 0}
 
 
 def random_beh(rng, nmem, members):
@@ -760,8 +901,19 @@ def random_cases(shared, ctx, count):
             else:
                 events.append("p%d%s" % (rng.randrange(n), random_beh(rng, nmem, members)))
         lmode = rng.choice(["a", "a", "a", "n", "d"])
-        yield {"listener": lmode, "protos": protos, "reporters": reporters, "events": events, "probe": False,
-               "drop": rng.random() < 0.5}
+        case = {"listener": lmode, "protos": protos, "reporters": reporters, "events": events, "probe": False,
+                "drop": rng.random() < 0.5}
+        if n > 1 and rng.random() < 0.35:
+            # part of the history happens while connect() is still awaiting the later protocols
+            c0 = rng.randint(1, n - 1)
+            for _c in range(n - c0):
+                events.insert(rng.randint(0, len(events)), "c")
+            case["connected0"] = c0
+            for late in protos[c0:]:
+                late[1] = []       # (a protocol closed late emits no report: see _mask_late)
+        if rng.random() < 0.2:
+            events.insert(rng.randint(0, len(events)), "sF")
+        yield case
 
 
 # ------------------------------------------------------------------------------ run
@@ -916,7 +1068,7 @@ def _evaluate(ctx, shared, cases, judge=True):
     answers = box.get("a", []) + box.get("b", [])
     for case, obs, ans in zip(cases, observations, answers):
         events = case["events"]
-        core = events[1::case["probe"]] if case.get("probe") else events
+        core = events[case.get("off", 1):case.get("upto")][::case["probe"]] if case.get("probe") else events
         first = next((j for j, e in enumerate(core) if e[0] in "ru"), None)
         reentrant = any("~" in e for e in core) or any("~" in k for _t, ks in case["protos"] for k in ks)
         nontrivial = first is not None and (first < len(core) - 1 or reentrant)
@@ -928,6 +1080,7 @@ def _evaluate(ctx, shared, cases, judge=True):
         ctx.note("len:%d" % len(core))
         for e in core:
             ctx.note("ev:" + ("report" if e[0] == "r" else "close" if e == "u" else "api" if e[0] == "a" else
+                              "connect-next" if e == "c" else "push-start-fault" if e == "sF" else
                               "set-listener" if e[0] == "L" else "set-push-listener" if e[0] == "M" else "push"))
             if e[0] in "rp":
                 ctx.note("handler:" + ("raises+reenters" if ("!" in e and "~" in e) else "raises" if "!" in e else "reenters" if "~" in e else "returns"))
@@ -946,8 +1099,10 @@ def _evaluate(ctx, shared, cases, judge=True):
         for c in obs["api_classes"]:
             ctx.note("open-api-result:" + c)
         impl, model = canon_impl(obs), canon_model(ans, obs)
+        if case.get("connected0") is not None:
+            impl, model = _mask_late(impl), _mask_late(model)
         if impl != model:
-            ctx.disagree({k: case[k] for k in ("listener", "protos", "reporters", "events", "drop") if k in case}, impl, model, where="facade life cycle")
+            ctx.disagree({k: case[k] for k in ("listener", "protos", "reporters", "events", "drop", "connected0") if k in case}, impl, model, where="facade life cycle")
         ctx.validated()
         if case["listener"] == "d":
             ctx.note("observation:gc-listener-runs")
@@ -956,7 +1111,7 @@ def _evaluate(ctx, shared, cases, judge=True):
             continue
         if judge:
             for sig, what in obs["problems"]:
-                ctx.fail(sig, {k: case[k] for k in ("listener", "protos", "reporters", "events", "drop") if k in case},
+                ctx.fail(sig, {k: case[k] for k in ("listener", "protos", "reporters", "events", "drop", "connected0") if k in case},
                          {"outs": obs["outs"], "notified": obs["N"], "close_log": obs["K"], "pending": obs["P"], "inside_callbacks": obs["I"]},
                          "property C09 (blocked after close/loss — inside the notification callback too and whether or not it "
                          "raises —, close() idempotent, pushes stop, at most one notification: the first)", what)
@@ -1015,6 +1170,18 @@ def fixed_cases(shared):
             # the PushListener handler closes the device / raises from inside a push callback
             fixed.append({"listener": lmode, "protos": [[1, ["c" + reent]], [0, []]], "reporters": reps[:2],
                           "events": ["s", "p0~%s+u+%s+u!" % (held, held), "p0", top, "u", "p0!", "r1l1"], "probe": False})
+    for lmode in "an":
+        # loss / close while connect() is still awaiting protocol 1 (and 2); connect() then completes
+        for ev in ("r0l1", "r0c", "u", "r1c"):
+            fixed.append({"listener": lmode, "protos": [[1, ["c"]], [1, []], [0, []]], "reporters": DEFAULT_REPORTERS,
+                          "connected0": 1, "events": ["s", "p0", ev, top, "c", held, "p0", "c", top, held, "p0", "u", "u"], "probe": False})
+        # push_updater.start() fails in the second protocol's updater; then close / loss; then pushes
+        for ev in ("u", "r1l2", "r0c"):
+            fixed.append({"listener": lmode, "protos": [[1, []], [1, []]], "reporters": DEFAULT_REPORTERS[:2],
+                          "events": ["sF", "p0", ev, "p0", "p1", "sF", "u", "p0"], "probe": False})
+        # close(); the returned tasks complete; close() again
+        fixed.append({"listener": lmode, "protos": [[2, []], [1, ["c"]]], "reporters": DEFAULT_REPORTERS[:2],
+                      "events": ["u", "p0", "u", "r0c", "u"], "probe": False})
     # every shape again with the device object dropped at the end (interface references retained)
     return fixed + [dict(c, drop=True) for c in fixed]
 
@@ -1035,7 +1202,7 @@ def run(ctx, only=None):
             import multiprocessing
             import sys
 
-            pool = multiprocessing.get_context("fork").Pool(ctx.scale(3, 4), _worker_init, (sys.path[0],))
+            pool = multiprocessing.get_context("fork").Pool(ctx.scale(4, 4), _worker_init, (sys.path[0],))
             shared["pool"] = pool
         except Exception:
             pool = None
